@@ -41,7 +41,7 @@ Ltac case_all :=
          | |- context [match ?x with _ => _ end] => destruct x eqn:?
          end.
 
-Lemma admitted_iff_well_addressed q v : refused (decide cfg q v) = negb (well_addressed q v).
+Lemma let_in_iff_well_addressed q v : refused (decide cfg q v) = negb (well_addressed q v).
 Proof.
   unfold decide, decide_early, well_addressed, wants_ws_upgrade.
   destruct (r_origin_refused q); [reflexivity|].
@@ -78,9 +78,9 @@ Qed.
 Lemma origin_gate_first q v : r_origin_refused q = true -> decide cfg q v = DRefuse R400.
 Proof. intros H. unfold decide, decide_early. rewrite H. reflexivity. Qed.
 
-(* a transport that is not allowed is never admitted *)
+(* a transport that is not allowed is never let in *)
 Lemma disallowed_transport_refused q v : transport_allowed cfg (r_transport q) = false -> refused (decide cfg q v) = true.
-Proof. intros H. rewrite admitted_iff_well_addressed. unfold well_addressed. rewrite H. destruct (r_origin_refused q); reflexivity. Qed.
+Proof. intros H. rewrite let_in_iff_well_addressed. unfold well_addressed. rewrite H. destruct (r_origin_refused q); reflexivity. Qed.
 Lemma websocket_upgrade_needs_transport q v i : decide cfg q v = DUpgrade i -> c_websocket cfg = true.
 Proof.
   unfold decide, decide_early, wants_ws_upgrade.
@@ -89,7 +89,7 @@ Proof.
     try (destruct v as [[[] []]|]; cbn); intros H; try discriminate; reflexivity.
 Qed.
 
-(* the decision does not look at the quirks: both servers admit and refuse the same requests *)
+(* the decision does not look at the quirks: both servers let in and refuse the same requests *)
 Lemma decide_quirk_independent (cfg' : config) q v :
   c_polling cfg' = c_polling cfg -> c_websocket cfg' = c_websocket cfg -> decide cfg' q v = decide cfg q v.
 Proof. intros E1 E2. unfold decide, decide_early, transport_allowed. rewrite E1, E2. reflexivity. Qed.
